@@ -114,6 +114,7 @@ type spend struct {
 	control  []byte
 	leaf     txscript.TapLeaf
 	merge    bool     // multisig co-signed in several SignTxOutput passes chained through previousScript
+	failed   bool     // a co-signing violation was already reported for this input
 	hts      []uint32 // hash types of the signatures of the final script when they differ per signature
 }
 
@@ -611,6 +612,10 @@ func signCaseWith(k *mon.Case, pick func(i int) int) {
 	flags := txscript.StandardVerifyFlags
 	broken := map[int]string{} // inputs whose untouched spend the engine already rejected
 	for i, sp := range spends {
+		if sp.failed {
+			broken[i] = "cosign"
+			continue
+		}
 		oracleVerify(k, s, i, sp)
 		taproot := sp.form == ref.FormTaproot || sp.form == ref.FormTapscript
 		cls := htClass(sp.form, sp.ht, i, nOut)
@@ -815,6 +820,8 @@ func cosign(k *mon.Case, r *mon.Rand, s *sctx, i int, sp *spend, ks *keyStore) (
 		if sp.redeem != nil {
 			if len(items) == 0 || string(items[len(items)-1]) != string(sp.redeem) {
 				k.Failf("sign:"+sp.class+":cosign:redeem-script-lost", "%s", detail)
+				sp.failed = true
+				sp.failed = true
 				return script, nil
 			}
 			items = items[:len(items)-1]
@@ -829,6 +836,7 @@ func cosign(k *mon.Case, r *mon.Rand, s *sctx, i int, sp *spend, ks *keyStore) (
 		if len(sigs) != want {
 			k.Failf(fmt.Sprintf("sign:%s:cosign:signature-count:%s", sp.class, map[bool]string{true: "dropped", false: "extra"}[len(sigs) < want]),
 				"%d signatures in the script, %d expected (min(m, distinct signers)); %s", len(sigs), want, detail)
+			sp.failed = true
 			return script, nil
 		}
 		nextKey := 0
@@ -844,6 +852,8 @@ func cosign(k *mon.Case, r *mon.Rand, s *sctx, i int, sp *spend, ks *keyStore) (
 			if !ok {
 				k.Failf("sign:"+sp.class+":cosign:signature-not-over-reference-digest",
 					"signature %x does not verify for its own hash type against the remaining keys in script order; %s", sig, detail)
+				sp.failed = true
+				sp.failed = true
 				return script, nil
 			}
 			sp.hts = append(sp.hts, uint32(sig[len(sig)-1]))
@@ -856,6 +866,8 @@ func cosign(k *mon.Case, r *mon.Rand, s *sctx, i int, sp *spend, ks *keyStore) (
 			s.tx.TxIn[i].SignatureScript = old
 			if err != nil {
 				k.Failf("sign:"+sp.class+":cosign:engine-rejects-complete-script", "%v; %s", err, detail)
+				sp.failed = true
+				sp.failed = true
 				return script, nil
 			}
 			k.Count("sign.cosign.complete_scripts_accepted", 1)
